@@ -1216,3 +1216,6 @@ def strategy(tier):
         return {"scripts": scripts, "ops": warm + ops}
 
     return case()
+
+
+RULE = RULE + " " + 'Later additions (enumerated): listeners that raise once; one payload object fired repeatedly; a producer that listens to itself; two distinct listener objects that compare equal - all histories of length 4 (quick) / 5 (thorough) over add / remove / remove_all, the producer must treat them consistently as one subscriber or as two.'
